@@ -215,6 +215,29 @@ func registerDerived() {
 
 // mergeLendParts folds the helper specs C09L / C18L (lend scenario) into the real properties C09 / C18.
 func mergeLendParts() {
+	if l, ok := props["C18L"]; ok {
+		props["C18"] = &PropSpec{
+			ID: "C18", Level: "exploration", Scenarios: []string{"cdp", "lend"},
+			NewHarness: func(spec *PropSpec) Harness { return &c18Switch{spec: spec} },
+			Quick:      Budget{Runs: 200, MaxEvents: 160},
+			Thorough:   Budget{Runs: 6000, MaxEvents: 400},
+			EssentialAny: [][]string{{"c18.vault_calc_checked"}, {"c18.locker_calc_checked"}, l.Essential},
+			BatchProbe: append([]string{"c18.vault_calc_checked", "c18.vault_interest_accrued", "c18.zero_time_checked", "c18.twin_vault_compared", "c18.locker_calc_checked"}, l.BatchProbe...),
+			TweakCfg: func(r *Rng, cfg *Config) {
+				if cfg.Scenario == "lend" {
+					l.TweakCfg(r, cfg)
+					return
+				}
+				cfg.Knobs["vault_interest"] = 1
+				cfg.Knobs["oog"] = 0
+				if cfg.Knobs["gap_profile"] == 0 {
+					cfg.Knobs["gap_profile"] = 1 + int64(r.Intn(3))
+				}
+			},
+			Rule: "cdp workload: twin worlds from the same genesis receive the same seeded event stream except that pure interest-trigger transactions (vault interest calc, locker reward calc) reach world A only (schedule fault: extra triggers at PRNG-chosen times, gaps from seconds to years); at every block boundary each vault with equal principal in both worlds is accrued to now on discarded branches and compared (A must not owe more than B beyond one unit + float64 resolution per step); in world A every trigger is checked for accrual >= 0 and == 0 over zero elapsed time. lend workload: " + l.Rule + "; distinct = distinct digest of the event stream; non-trivial = an accrual trigger was checked",
+			Assume: append([]string{"monotonicity in principal and rate is not checked by twins (only time: split vs single accrual); the pure numeric quantifier over all (amount, rate, time) is not claimed (DESIGN §9)", "twin comparison stops for a run as soon as a transaction succeeds in one world and fails in the other"}, l.Assume...),
+		}
+	}
 	if l, ok := props["C09L"]; ok {
 		c := props["C09"]
 		cdpOr, cdpTw := c.Oracles, c.TweakCfg
